@@ -309,20 +309,23 @@ def set_block(a, ts=(), Ds=None, val='zeros'):
     Dsize = Ds[0] if a.isdiag else reduce(mul, Ds, 1)
 
     ind = sum(t < ts for t in a.struct.t)
-    ind2 = ind
-    if ind < len(a.struct.t) and a.struct.t[ind] == ts:
-        ind2 += 1
-        a._data = a.config.backend.delete(a._data, a.slices[ind].slcs[0])
+    ind2 = ind + 1 if (ind < len(a.struct.t) and a.struct.t[ind] == ts) else ind
 
-    pos = sum(x.Dp for x in a.slices[:ind])
-    new_block = _init_block(a.config, Dsize, val, dtype=a.yastn_dtype, device=a.device)
-    a._data = a.config.backend.insert(a._data, pos, new_block)
+    # new structure is tested before the tensor gets modified
     a_t = a.struct.t[:ind] + (ts,) + a.struct.t[ind2:]
     a_D = a.struct.D[:ind] + (Ds,) + a.struct.D[ind2:]
     a_Dp = [x.Dp for x in a.slices[:ind]] + [Dsize] + [x.Dp for x in a.slices[ind2:]]
+    struct = a.struct._replace(t=a_t, D=a_D, size=sum(a_Dp))
+    _test_tD_consistency(struct)
+    new_block = _init_block(a.config, Dsize, val, dtype=a.yastn_dtype, device=a.device)
+
+    data = a._data
+    if ind2 > ind:
+        data = a.config.backend.delete(data, a.slices[ind].slcs[0])
+    pos = sum(x.Dp for x in a.slices[:ind])
+    a._data = a.config.backend.insert(data, pos, new_block)
     a.slices = tuple(_slc(((stop - dp, stop),), ds, dp) for stop, dp, ds in zip(accumulate(a_Dp), a_Dp, a_D))
-    a.struct = a.struct._replace(t=a_t, D=a_D, size=sum(a_Dp))
-    _test_tD_consistency(a.struct)
+    a.struct = struct
 
 
 def _init_block(config, Dsize, val, dtype, device):
